@@ -12,7 +12,8 @@ export CARGO_NET_OFFLINE=true CARGO_TARGET_DIR=/tmp/seed-target
 cd /verif
 git -C /repo worktree remove --force "$WT" 2>/dev/null
 git -C /repo worktree add --detach "$WT" HEAD >/dev/null 2>&1 || { echo "worktree failed"; exit 2; }
-cleanup() { git -C /repo worktree remove --force "$WT" >/dev/null 2>&1; rm -rf /tmp/qvh-*; }
+TAG=$(python3 -c "import hashlib,sys;print(hashlib.sha1(sys.argv[1].encode()).hexdigest()[:10])" "$WT")
+cleanup() { git -C /repo worktree remove --force "$WT" >/dev/null 2>&1; rm -rf "/tmp/qvh-$TAG"; }
 trap cleanup EXIT
 cp "$SRC/seed_demo.rs" "$WT/quil-rs/examples/seed_demo.rs"
 # --- without the change
